@@ -4,6 +4,7 @@ pub mod app;
 pub mod net;
 pub mod oracles;
 pub mod qlogcap;
+pub mod aasim;
 
 use std::{
     collections::BTreeMap,
